@@ -92,6 +92,13 @@ class FieldBase(metaclass=ABCMeta):
         state.pop("_cache_methods", None)  # delete method cache if present
         return state
 
+    def __setstate__(self, state: dict[str, Any]) -> None:
+        self.__dict__.update(state)
+        if "_FieldBase__data_full" in state:
+            # pickling and deep-copying turn the view of the valid data into an
+            # independent array: restore it as a view of the full data
+            self._data_valid = self.__data_full[self._idx_valid]
+
     @property
     def data(self) -> NumericArray:
         """:class:`~numpy.ndarray`: discretized data at the support points."""
